@@ -301,7 +301,8 @@ def search(trees, points, pid, payload, assignments=False, family=None):
                 new.append(rec)
         for f in fails:
             if f not in enc_fails:
-                new.append({"p": repr(f["p"]), "x": repr(f["x"]), "note": "not encodable in the model"})
+                new.append({"p": repr(f["p"]), "p_structure": skey(f["p"]), "optimized": repr(f["q"]), "x": repr(f["x"]), "original_answer": repr(f["orig"]),
+                            "optimized_answer": repr(f["opt"]), "note": "not encodable in the model (no trace to attribute it with)"})
     else:
         # the model is unavailable, so failures cannot be attributed through its trace: a failing tree that contains the
         # operand shape of a listed finding is not reported as a new failing input
@@ -422,29 +423,34 @@ def history_search(pid, payload, templates, points, assignments=False, extra_cal
 
     def thunk(tpl, other):
         def th():
-            can_optimize(copy.deepcopy(other))           # a temporary that is dropped at once: its address is free again
-            t = copy.deepcopy(tpl)
-            q = optimize(t)
-            ref = copy.deepcopy(tpl)                     # the original, untouched by whatever optimize did to its argument
-            d = first_difference_pair(ref, q, points, assignments)
-            if d is None:
-                return None
-            x, a, b = d
-            return {"p": repr(tpl), "p_structure": skey(tpl), "optimized": repr(q), "x": repr(x), "original_answer": repr(a), "optimized_answer": repr(b)}
+            for _attempt in range(3):                        # (whether a freed address is taken by the next object is up to the allocator: a few tries)
+                can_optimize(copy.deepcopy(other))           # a temporary that is dropped at once: its address is free again
+                t = copy.deepcopy(tpl)
+                q = optimize(t)
+                ref = copy.deepcopy(tpl)                     # the original, untouched by whatever optimize did to its argument
+                d = first_difference_pair(ref, q, points, assignments)
+                if d is not None:
+                    x, a, b = d
+                    return {"p": repr(tpl), "p_structure": skey(tpl), "optimized": repr(q), "x": repr(x), "original_answer": repr(a), "optimized_answer": repr(b)}
+            return None
         return th
     calls = []
     for i, tpl in enumerate(templates):
         calls.append((f"optimize({tpl!r})  [after can_optimize({templates[(i * 7 + 3) % len(templates)]!r}) on a temporary]", thunk(tpl, templates[(i * 7 + 3) % len(templates)])))
     calls += list(extra_calls)
 
+    vnames = sorted({nm for tpl in templates for nm in names_of(tpl)})[:2] if assignments else []
+    na, nb = (vnames + ["a", "b"])[:2]                   # the variables of the templates: what is left behind by a failed call must be able to meet them
+
     def deep(n):
-        t = _N(name="a")
+        t = _N(name=na)
         for _ in range(n):
-            t = PP.AndPredicate(_N(name="b"), t)
+            t = PP.AndPredicate(_N(name=nb), t)
         return t
     poison = [("optimize(ge_p(1) & le_p('x'))  # TypeError: constants that cannot be compared", lambda: optimize(ge_p(1) & le_p("x")))] * 60
-    poison += [("optimize(~a & (ge_p(1) & le_p('x')))", lambda: optimize(PP.NotPredicate(_N(name="a")) & (ge_p(1) & le_p("x")))),
-               ("optimize(a & <and-chain nested 3000 deep>)  # RecursionError", lambda: optimize(PP.AndPredicate(_N(name="a"), deep(3000)))),
+    poison += [(f"optimize(~{na} & (ge_p(1) & le_p('x')))", lambda: optimize(PP.NotPredicate(_N(name=na)) & (ge_p(1) & le_p("x")))),
+               (f"optimize(~{nb} & (ge_p(1) & le_p('x')))", lambda: optimize(PP.NotPredicate(_N(name=nb)) & (ge_p(1) & le_p("x")))),
+               (f"optimize({na} & <and-chain nested 3000 deep>)  # RecursionError", lambda: optimize(PP.AndPredicate(_N(name=na), deep(3000)))),
                ("optimize(<and-chain nested 5000 deep>)  # RecursionError", lambda: optimize(deep(5000)))]
     poison += list(extra_poison)
     n, fails = history.run(calls, poison=poison, passes=4, seed=int(payload.get("seed", 0)), recursion_limit=1000, vetted=vetted)
